@@ -195,7 +195,10 @@ fn total_threads() -> usize {
 // tasks and the caller thread
 // ------------------------------------------------------------------------------------------------
 
-/// kind: 0 return, 1 panic, 2 spin, 3 sleep, 4 spin then panic, 5 sleep then panic
+/// kind: 0 return, 1 panic, 2 spin, 3 sleep, 4 spin then panic, 5 sleep then panic,
+/// 6 barrier: wait until `barrier` task bodies are running at the same time (a pool with that many threads must
+/// get there: "up to N tasks run at the same time"); gives up after the escalating waits and reports
+/// Barrier_Timeout, which no action of the model explains
 fn panics(kind: u8) -> bool {
     matches!(kind, 1 | 4 | 5)
 }
@@ -203,6 +206,8 @@ fn panics(kind: u8) -> bool {
 struct Counters {
     ran: Vec<AtomicU32>,
     done: Vec<AtomicU32>,
+    arrived: AtomicU32,
+    barrier: AtomicU32,
 }
 
 impl Counters {
@@ -210,6 +215,8 @@ impl Counters {
         Arc::new(Counters {
             ran: (0..=n).map(|_| AtomicU32::new(0)).collect(),
             done: (0..=n).map(|_| AtomicU32::new(0)).collect(),
+            arrived: AtomicU32::new(0),
+            barrier: AtomicU32::new(0),
         })
     }
     fn ran(&self, t: usize) -> u32 {
@@ -227,6 +234,19 @@ fn make_task(t: i64, kind: u8, work: u64, c: Arc<Counters>) -> impl FnOnce() + S
         match kind {
             2 | 4 => spin(work * 20),
             3 | 5 => std::thread::sleep(Duration::from_micros(work)),
+            6 => {
+                let want = c.barrier.load(Ordering::SeqCst);
+                c.arrived.fetch_add(1, Ordering::SeqCst);
+                let t0 = Instant::now();
+                let total: u64 = WAITS.iter().sum();
+                while c.arrived.load(Ordering::SeqCst) < want {
+                    if t0.elapsed() > Duration::from_secs(total) {
+                        record("Barrier_Timeout", t, c.arrived.load(Ordering::SeqCst) as i64);
+                        break;
+                    }
+                    std::thread::sleep(Duration::from_micros(50));
+                }
+            }
             _ => {}
         }
         if panics(kind) {
@@ -405,6 +425,7 @@ fn random_mode(args: &[String]) {
     let mut recovery_threads = 0usize;
     let mut fingerprints: Vec<String> = Vec::new();
     let mut monitored_runs = 0usize;
+    let mut barrier_runs = 0usize;
     for run in 0..runs {
         let n = if rng.chance(1, 2) { rng.range(1, 3.min(max_n)) } else { rng.range(1, max_n) };
         let started = !rng.chance(1, 25);
@@ -418,6 +439,9 @@ fn random_mode(args: &[String]) {
                 _ => rng.range(1, max_t),
             }
         };
+        // one run in eight: exactly n tasks that all wait for each other - only n-fold parallelism gets them through
+        let barrier_run = started && rng.chance(1, 8);
+        let tasks = if barrier_run { n } else { tasks };
         let panic_pct = *rng.pick(&[0usize, 0, 10, 25, 50, 100]);
         let mut kinds: Vec<u8> = vec![0; tasks + 1];
         let mut works: Vec<u64> = vec![0; tasks + 1];
@@ -433,6 +457,9 @@ fn random_mode(args: &[String]) {
                 (true, _) => 5,
             };
             works[t] = rng.range(1, 300) as u64;
+            if barrier_run {
+                kinds[t] = 6;
+            }
         }
         let pan: Vec<i64> = (1..=tasks).filter(|t| panics(kinds[*t])).map(|t| t as i64).collect();
         let stop = started && rng.chance(1, 2);
@@ -441,6 +468,10 @@ fn random_mode(args: &[String]) {
         let perturb_pct = *rng.pick(&[0u64, 5, 20, 50]);
         reset_state(false, rng.next_u64(), perturb_pct);
         let counters = Counters::new(tasks);
+        if barrier_run {
+            counters.barrier.store(n as u32, Ordering::SeqCst);
+            barrier_runs += 1;
+        }
         let kinds_a = Arc::new(kinds.clone());
         let (tx, caller) = spawn_caller(counters.clone(), kinds_a);
         if started {
@@ -571,7 +602,7 @@ fn random_mode(args: &[String]) {
     }
     out_line(&json!({"summary": true, "mode": "random", "runs": runs_done, "events": total_events, "tasks": total_tasks,
                      "panicking_tasks": total_panics, "distinct_shapes": shapes.len(), "hang": hang, "samples": samples, "fingerprints": fingerprints,
-                     "monitored_runs": monitored_runs}));
+                     "monitored_runs": monitored_runs, "barrier_runs": barrier_runs}));
     std::process::exit(0);
 }
 
